@@ -11,6 +11,8 @@ use crate::spec::*;
 pub fn cfg() -> GenCfg {
     let mut c = GenCfg::full();
     c.unsized_tail = true;
+    c.respell_pct = 6;
+    c.wide_pct = 2;
     c
 }
 
